@@ -15,7 +15,7 @@ Definition rl_inv (s : sess) : Prop :=
   | RLock i _ => exists c, nth_error (calls s) i = Some c
   | R4 XErr0 => False
   | D1 seen => passive seen = false /\ (closed seen = true -> st s = seen)
-  | RDone | RNone => st s <> Ok
+  | RDone => st s <> Ok
   | _ => True
   end /\
   (rd_young (rd s) = true -> passive (st s) = false).
@@ -83,6 +83,10 @@ Lemma reader_step_rl s b s' fx :
 Proof.
   intros (Hc & Hr & _) Hco (A1 & A2 & A3) H. unfold reader_step in H.
   destruct (rd s) eqn:Erd; try discriminate.
+  - (* the read loop starts *)
+    destruct (estab s); [|discriminate]. cbn [fix_acc fixed] in H.
+    inversion H; subst; unfold rl_inv, bound_to in *; cbn; repeat split; auto;
+      intros j c d Hj Hh; destruct (A1 j c d Hj Hh); discriminate.
   - (* R0 *)
     destruct (goon (st s)) eqn:Eg; inversion H; subst; unfold rl_inv, bound_to in *; cbn; repeat split; auto;
       intros j c d Hj Hh; destruct (A1 j c d Hj Hh); discriminate.
@@ -243,7 +247,7 @@ Proof.
     + inversion H; subst; unfold sk_inv; cbn; repeat split; auto.
     + inversion H; subst; unfold sk_inv; cbn; repeat split; auto. intros X. destruct (S2 X) as [Y|Y]; [discriminate|auto].
   - destruct (rd s) eqn:Erd; try (unfold reader_step in H; rewrite Erd in H; discriminate).
-    all: try (destruct (reader_step_pre _ _ _ _ _ H) as ((E1 & _ & _ & E4 & _) & Hp & _); [rewrite Erd; exact I|];
+    all: try (destruct (reader_step_pre _ _ _ _ H) as ((E1 & _ & _ & E4 & _) & Hp & _); [rewrite Erd; exact I|];
               destruct (reader_pre_shape _ _ _ _ H) as (Es & _); [rewrite Erd; exact I|];
               unfold sk_inv; rewrite E1, E4, Es; repeat split; auto;
               intros X; rewrite X in Hp; cbn in Hp; discriminate).
@@ -298,7 +302,7 @@ Qed.
 Definition young (c : call) : Prop := c_tab c = true -> c_a c = A1 \/ c_a c = A2.
 
 Definition postb (s : sess) : bool :=
-  match rd s with D5 _ | D6 | D8 | RDone | RNone => true | _ => false end
+  match rd s with D5 _ | D6 | D8 | RDone => true | RNone => negb (estab s) | _ => false end
   || match cl s with C5 | C6 | C7 => true | _ => false end
   || closed (st s).
 
@@ -306,10 +310,11 @@ Definition yg_inv (s : sess) : Prop := postb s = true -> Forall young (calls s).
 
 Lemma post_not_ok s : stat_inv s -> rl_inv s -> postb s = true -> st s <> Ok.
 Proof.
-  intros (Hc & Hr & _) (_ & A2 & _) H. unfold postb in H. unfold cl_ok in Hc. unfold rd_ok, seen_ok in Hr.
+  intros (Hc & Hr & _ & _ & (He1 & _)) (_ & A2 & _) H. unfold postb in H. unfold cl_ok in Hc. unfold rd_ok, seen_ok in Hr.
   intros E. rewrite E in *. cbn in H. rewrite orb_false_r in H. apply orb_true_iff in H. destruct H as [H|H].
   - destruct (rd s); try discriminate; try (destruct seen; try tauto; try discriminate; destruct Hr; discriminate);
       try discriminate Hr; try (apply A2; reflexivity).
+    rewrite (He1 eq_refl) in H. discriminate.
   - destruct (cl s); try discriminate; discriminate Hc.
 Qed.
 
@@ -322,8 +327,8 @@ Proof. intros E1 E2 H. unfold yg_inv in *. rewrite E1, E2. exact H. Qed.
 Lemma caller_step_yg s i v w s' :
   stat_inv s -> rl_inv s -> yg_inv s -> caller_step s i v w = Some s' -> yg_inv s'.
 Proof.
-  intros Hsi Hrl Hy H. pose proof (caller_step_ctrl _ _ _ _ _ H) as (E1 & _ & _ & E4 & E5 & _).
-  assert (Ep : postb s' = postb s) by (unfold postb; rewrite E1, E4, E5; reflexivity).
+  intros Hsi Hrl Hy H. pose proof (caller_step_ctrl _ _ _ _ _ H) as (E1 & _ & _ & E4 & E5 & E6 & _).
+  assert (Ep : postb s' = postb s) by (unfold postb; rewrite E1, E4, E5, E6; reflexivity).
   unfold yg_inv. rewrite Ep. intros P. specialize (Hy P).
   pose proof (post_not_ok s Hsi Hrl P) as Hnok.
   unfold caller_step in H. destruct (nth_error (calls s) i) as [c|] eqn:En; [|discriminate].
@@ -346,8 +351,8 @@ Qed.
 
 Lemma reply_step_yg s i s' : calls_ok s -> yg_inv s -> reply_step s i = Some s' -> yg_inv s'.
 Proof.
-  intros Hco Hy H. pose proof (reply_step_ctrl _ _ _ H) as (E1 & _ & _ & E4 & E5 & _).
-  assert (Ep : postb s' = postb s) by (unfold postb; rewrite E1, E4, E5; reflexivity).
+  intros Hco Hy H. pose proof (reply_step_ctrl _ _ _ H) as (E1 & _ & _ & E4 & E5 & E6 & _).
+  assert (Ep : postb s' = postb s) by (unfold postb; rewrite E1, E4, E5, E6; reflexivity).
   unfold yg_inv. rewrite Ep. intros P. specialize (Hy P).
   unfold reply_step in H. destruct (nth_error (calls s) i) as [c|] eqn:En; [|discriminate].
   pose proof (Forall_nth _ _ _ _ Hy En) as Yc. pose proof (Forall_nth _ _ _ _ Hco En) as Cc.
@@ -357,8 +362,8 @@ Qed.
 
 Lemma visit_step_yg s i s' : yg_inv s -> visit_step s i = Some s' -> yg_inv s'.
 Proof.
-  intros Hy H. pose proof (visit_step_ctrl _ _ _ H) as (E1 & _ & _ & E4 & E5 & _).
-  assert (Ep : postb s' = postb s) by (unfold postb; rewrite E1, E4, E5; reflexivity).
+  intros Hy H. pose proof (visit_step_ctrl _ _ _ H) as (E1 & _ & _ & E4 & E5 & E6 & _).
+  assert (Ep : postb s' = postb s) by (unfold postb; rewrite E1, E4, E5, E6; reflexivity).
   unfold yg_inv. rewrite Ep. intros P. specialize (Hy P).
   unfold visit_step in H. destruct (rd s); try discriminate.
   destruct (nth_error (calls s) i) as [c|] eqn:En; [|discriminate].
@@ -404,14 +409,15 @@ Proof.
     rewrite orb_true_r. reflexivity.
 Qed.
 
-Definition rd_postb (r : rpc) : bool := match r with D5 _ | D6 | D8 | RDone | RNone => true | _ => false end.
+Definition rd_postb (r : rpc) : bool := match r with D5 _ | D6 | D8 | RDone => true | _ => false end.
 
 Lemma reader_pre_target s b s' fx :
   reader_step fixed s b = Some (s', fx) ->
-  match rd s with R0 | RLook _ _ | RLock _ _ | R3 _ | R4 _ => True | _ => False end ->
+  match rd s with RNone | R0 | RLook _ _ | RLock _ _ | R3 _ | R4 _ => True | _ => False end ->
   rd_postb (rd s') = false.
 Proof.
   unfold reader_step. destruct (rd s) eqn:Erd; try tauto; intros H _.
+  - destruct (estab s); [|discriminate]. cbn [fix_acc fixed] in H. inversion H; subst; reflexivity.
   - destruct (goon (st s)); inversion H; subst; reflexivity.
   - destruct (nth_error (calls s) i) as [c|]; [destruct (c_tab c)|]; inversion H; subst; reflexivity.
   - destruct (nth_error (calls s) i) as [c|]; [|discriminate].
@@ -435,12 +441,16 @@ Proof.
   intros Hsi Hco Hrl Hb Hy H.
   destruct (rd s) eqn:Erd; try (unfold reader_step in H; rewrite Erd in H; discriminate).
   (* read loop: the postb of a read-loop state comes from closeLocked or a closed status only *)
-  all: try (destruct (reader_step_pre _ _ _ _ _ H) as ((E1 & _ & _ & E4 & _) & Hp & Hn); [rewrite Erd; exact I|];
+  all: try (destruct (reader_step_pre _ _ _ _ H) as ((E1 & _ & _ & E4 & _) & Hp & Hn); [rewrite Erd; exact I|];
             pose proof (reader_pre_target _ _ _ _ H) as Htg; rewrite Erd in Htg; specialize (Htg I);
             assert (Ep : postb s' = true -> postb s = true);
-            [ unfold postb; fold (rd_postb (rd s')); fold (rd_postb (rd s)); rewrite E1, E4, Htg, Erd; cbn; auto |];
+            [ unfold postb; rewrite E1, E4; destruct (rd s'); cbn in Htg; try discriminate Htg;
+              try (exfalso; apply Hn; reflexivity); cbn;
+              intros X; apply orb_true_iff in X; destruct X as [X|X]; rewrite X; rewrite ?orb_true_r; reflexivity |];
             unfold yg_inv; intros P; specialize (Hy (Ep P));
             pose proof (post_not_ok s Hsi Hrl (Ep P)) as Hnok).
+  - unfold reader_step in H. rewrite Erd in H. destruct (estab s); [|discriminate].
+    cbn [fix_acc fixed] in H. inversion H; subst; exact Hy.
   - (* R0 *) unfold reader_step in H. rewrite Erd in H. destruct (goon (st s)); inversion H; subst; exact Hy.
   - unfold reader_step in H. rewrite Erd in H.
     destruct (nth_error (calls s) i) as [c|]; [destruct (c_tab c)|]; inversion H; subst; exact Hy.
@@ -510,7 +520,7 @@ Proof.
   - unfold noeff in H. destruct (caller_step s i veto wr) eqn:E; inversion H; subst. eapply caller_step_yg; eauto.
   - unfold noeff in H. destruct (reply_step s i) eqn:E; inversion H; subst. eapply reply_step_yg; eauto.
   - unfold noeff in H. destruct (handler_step s j veto wr) as [s0|] eqn:E; inversion H; subst s0 fx; clear H.
-    destruct (handler_step_ctrl _ _ _ _ _ E) as (E1 & _ & _ & E4 & E5 & _).
+    destruct (handler_step_ctrl _ _ _ _ _ E) as (E1 & _ & _ & E4 & E5 & E6 & _).
     assert (Ec : calls s' = calls s).
     { unfold handler_step in E. destruct (nth_error (hctxs s) j) as [h|]; [|discriminate]. cbv zeta in E.
       destruct (k_pc h); try discriminate;
@@ -518,11 +528,11 @@ Proof.
                | context [match ?x with _ => _ end] => destruct x; try discriminate E
                | context [if ?x then _ else _] => destruct x; try discriminate E
                end; inversion E; reflexivity. }
-    apply (yg_same s); [exact Ec| |exact Hy]. unfold postb. rewrite E1, E4, E5. reflexivity.
+    apply (yg_same s); [exact Ec| |exact Hy]. unfold postb. rewrite E1, E4, E5, E6. reflexivity.
 Qed.
 
 (* the six closure properties of c8_inv used by the lifting lemma *)
-Lemma reach_c8_base_ok id : c8_inv (mkSess Ok true true 0 0 0 0 [] [] R0 CIdle id true 0).
+Lemma reach_c8_base_ok id : c8_inv (mkSess Ok true true 0 0 0 0 [] [] RNone CIdle id true 0).
 Proof.
   unfold c8_inv, calls_ok, wg_ok, g_inv, past_ctx_wait; cbn.
   repeat split; auto; try constructor; try discriminate; try tauto; try (intros [[]|X]; discriminate).
@@ -561,7 +571,7 @@ Definition no_inv (s : sess) : Prop := rl_inv s /\ sk_inv s /\ yg_inv s.
 
 Definition c8n (s : sess) : Prop := c8_inv s /\ no_inv s.
 
-Lemma c8n_base_ok id : c8n (mkSess Ok true true 0 0 0 0 [] [] R0 CIdle id true 0).
+Lemma c8n_base_ok id : c8n (mkSess Ok true true 0 0 0 0 [] [] RNone CIdle id true 0).
 Proof.
   split; [apply (reach_c8_base_ok id)|].
   unfold no_inv, rl_inv, sk_inv, yg_inv, postb, bound_to; cbn. repeat split; auto; try discriminate.
@@ -667,6 +677,8 @@ Proof.
   { destruct Hgone as [X|[X|X]]; auto. rewrite X in Hclosed. discriminate. }
   unfold reader_step in R. pose proof Hrl as (A1 & A2 & A3).
   destruct (rd s) eqn:Erd; try discriminate.
+  - (* the read loop has not been started yet: it is about to be *)
+    apply negb_false_iff in Hprd. rewrite Hprd in R. cbn [fix_acc fixed] in R. discriminate.
   - destruct (goon (st s)); discriminate.
   - (* R2: the read error is pending *)
     pose proof (terminal_event s (EFrame FrErr) T) as X. unfold sstep, sstep_cfg, noeff, frame_step in X. rewrite Erd in X.
@@ -792,6 +804,8 @@ Proof.
     apply (cc_all_mono s); auto.
   - (* reader *)
     unfold reader_step in H. destruct (rd s) eqn:Erd; try discriminate.
+    + destruct (estab s); [|discriminate]. cbn [fix_acc fixed] in H.
+      inversion H; subst; (apply (cc_all_mono _ _ Hm); [reflexivity|exact Hcc]).
     + destruct (goon (st s)); inversion H; subst; (apply (cc_all_mono _ _ Hm); [reflexivity|exact Hcc]).
     + destruct (nth_error (calls s) i) as [c|]; [destruct (c_tab c)|]; inversion H; subst; (apply (cc_all_mono _ _ Hm); [reflexivity|exact Hcc]).
     + destruct (nth_error (calls s) i) as [c|] eqn:En; [|discriminate].
@@ -878,7 +892,7 @@ Proof.
         -- left. unfold fail_call, done_call; cbn. exact P.
         -- exfalso. apply Hyoung. unfold postb. rewrite P. cbn. rewrite orb_true_r. reflexivity.
         -- exfalso. apply Hyoung. unfold postb. destruct Hsi as (_ & _ & _ & _ & (_ & He2 & _)).
-           destruct (rd s); try (rewrite He2 in P by discriminate; discriminate). reflexivity.
+           destruct (rd s); try (rewrite He2 in P by discriminate; discriminate). rewrite P. reflexivity.
       * intros X; discriminate.
       * intros _ X; discriminate.
     + inversion E; subst; (eapply (cc_upd _ _ i); [exact Hm|reflexivity| |exact Hcc]).
